@@ -27,6 +27,8 @@ extern int g_hash_clean;
 extern uint16_t g_entry_hist;
 extern uint32_t w_pass_calls;
 extern int g_reject; /* ghost: the entry parameters are invalid (tied by == in requires) */
+extern int w_pass_called; /* ghost flag set by the pass stub (saturating, unlike the counter) */
+extern int g_must_pass; /* ghost: end_of_stream or a flush is requested at entry (tied by == in requires) */
 
 #define DRV_ST stream->internal_state
 #define SPEC_DIST_MASK(hb) ((((hb) == 0 || (hb) > 15) ? (1u << 15) : (1u << (hb))) - 1u)
@@ -50,8 +52,8 @@ extern int g_reject; /* ghost: the entry parameters are invalid (tied by == in r
                           stream->avail_out, stream->total_out, DRV_ST.has_hist, DRV_ST.state,     \
                           DRV_ST.block_next, DRV_ST.block_end, DRV_ST.has_eob, DRV_ST.has_eob_hdr, \
                           DRV_ST.count, DRV_ST.crc, DRV_ST.tmp_out_start, DRV_ST.tmp_out_end,      \
-                          DRV_ST.has_level_buf_init, g_hash_clean, w_pass_calls)                   \
-        __CPROVER_ensures(w_pass_calls == __CPROVER_old(w_pass_calls) + 1)                         \
+                          DRV_ST.has_level_buf_init, g_hash_clean, w_pass_calls, w_pass_called)    \
+        __CPROVER_ensures(w_pass_calls == __CPROVER_old(w_pass_calls) + 1 && w_pass_called == 1)   \
         __CPROVER_ensures(DRV_ST.has_hist <= IGZIP_DICT_HASH_SET)                                  \
         __CPROVER_ensures(stream->next_in != __CPROVER_old(stream->next_in) ==> g_hash_clean == 0) \
         __CPROVER_ensures(stream->next_in == __CPROVER_old(stream->next_in) ==>                    \
@@ -83,7 +85,8 @@ extern int g_reject; /* ghost: the entry parameters are invalid (tied by == in r
         __CPROVER_requires(DRV_ST.has_hist <= IGZIP_DICT_HASH_SET)                                 \
         __CPROVER_requires(g_entry_hist == DRV_ST.has_hist && w_pass_calls == 0)                   \
         __CPROVER_requires(g_reject == ((DRV_REJECT) ? 1 : 0))                                     \
-        __CPROVER_assigns(__CPROVER_object_whole(stream), g_hash_clean, w_pass_calls)              \
+        __CPROVER_requires(g_must_pass == ((stream->end_of_stream != 0 || stream->flush != NO_FLUSH) ? 1 : 0)) \
+        __CPROVER_assigns(__CPROVER_object_whole(stream), g_hash_clean, w_pass_calls, w_pass_called) \
         /* C10: rejection before any change */                                                     \
         __CPROVER_ensures(g_reject ==>                                            \
                           (__CPROVER_return_value != COMP_OK && w_pass_calls == 0 &&               \
@@ -101,6 +104,9 @@ extern int g_reject; /* ghost: the entry parameters are invalid (tied by == in r
                           __CPROVER_return_value == INVALID_FLUSH)                                 \
         __CPROVER_ensures(!g_reject ==>                                           \
                           __CPROVER_return_value == COMP_OK)                \
+        /* C10 progress: with end_of_stream or a flush requested the call never returns without having run a   \
+         * compression pass (the "too little buffered, just continue" shortcut is for NO_FLUSH mid-stream only) */ \
+        __CPROVER_ensures((!g_reject && g_must_pass) ==> w_pass_called == 1)                        \
         /* the caller's parameters are handed back as given */                                     \
         __CPROVER_ensures(stream->flush == __CPROVER_old(stream->flush) &&                         \
                           stream->end_of_stream == __CPROVER_old(stream->end_of_stream))
@@ -110,7 +116,7 @@ extern int g_reject; /* ghost: the entry parameters are invalid (tied by == in r
         __CPROVER_assigns(in_size_initial, out_size_initial, buf_start_in, internal, copy_start_offset, \
                           copy_down_src, copy_down_size, buf_hist_start, size, next_in, avail_in,  \
                           buffered_size, next_in_pre, processed, hist_size, in_size, out_size,     \
-                          __CPROVER_object_whole(stream), g_hash_clean, w_pass_calls)              \
+                          __CPROVER_object_whole(stream), g_hash_clean, w_pass_calls, w_pass_called) \
         __CPROVER_loop_invariant(DRV_ST.has_hist <= IGZIP_DICT_HASH_SET)                           \
         __CPROVER_loop_invariant(DRV_ST.has_hist != IGZIP_NO_HIST || g_hash_clean)                 \
         __CPROVER_loop_invariant(stream->flush == flush_type && stream->end_of_stream == end_of_stream) \
